@@ -455,10 +455,11 @@ func build(tier string) []explore.Scenario {
 
 func main() {
 	explore.Main(explore.Config{
-		Property:  "C08",
-		Technique: "exhaustive enumeration of (declaration x operation x target x owner) on the real runtime API, each run to exact quiescence on the controlled scheduler, against a reference policy function",
-		Rule:      "full product of declarations (6 input kinds x by-kind/by-ID x 3 output modes x cached/uncached) x 18 operations x 5 target relations x 4 current owners; every case is distinct",
-		Assume:    []string{"deterministic default schedule (the property is about access decisions, not interleavings)", "one input and at most one output per declaration"},
-		Extra:     map[string]any{"explanation": "states = cases (declaration, operation, target, owner) executed; transitions = scheduler steps of the runtime runs"},
+		Property:     "C08",
+		RequireShims: true,
+		Technique:    "exhaustive enumeration of (declaration x operation x target x owner) on the real runtime API, each run to exact quiescence on the controlled scheduler, against a reference policy function",
+		Rule:         "full product of declarations (6 input kinds x by-kind/by-ID x 3 output modes x cached/uncached) x 18 operations x 5 target relations x 4 current owners; every case is distinct",
+		Assume:       []string{"deterministic default schedule (the property is about access decisions, not interleavings)", "one input and at most one output per declaration"},
+		Extra:        map[string]any{"explanation": "states = cases (declaration, operation, target, owner) executed; transitions = scheduler steps of the runtime runs"},
 	}, build)
 }
